@@ -23,6 +23,6 @@ pub fn run(ctx: &Ctx) -> Evidence {
         ctx.require("distinct_encoding_variants", st.variants.len() as u64, 1900);
         ctx.require("interrupts_accepted", st.int_accepts, 500);
     }
-    ev.assumptions.push("address carried during the interrupt acknowledge T-states is a don't-care; their position relative to the pushes is not".into());
+    ev.assumptions.push("interrupt acknowledge T-states presented without an address are accepted as such; presented as address-carrying delay cycles they must carry the CPU's PC (the return address pushed next); their position relative to the pushes is significant".into());
     ev
 }
